@@ -227,3 +227,5 @@ def run(ctx):
         pass
     ctx.not_decided("duplicates in the external edge; loop bounds 1..am1 of internal_edge (exclusive of corners) are checked only through the pushed forms")
     ctx.assume("C18: the z-order curve selected for delta_depth is the bit interleave (the helpers are evaluated through the real implementations, devirtualised from get_zoc's static)")
+    from rules import controls
+    controls.bits_controls(ctx)
